@@ -3,6 +3,11 @@
 # kind: rapid (default) | exhaustive | plain
 # quick/thorough: checks = total rapid cases over all shards; shards = processes; timeout = seconds per shard
 PARTS = {
+    "C01": [
+        {"test": "TestVfC01Delivery",
+         "quick": {"checks": 480, "shards": 16, "timeout": 900},
+         "thorough": {"checks": 16000, "shards": 16, "timeout": 3400}},
+    ],
     "C16": [
         {"test": "TestVfC16Blacklist",
          "quick": {"checks": 1200, "shards": 12, "timeout": 900},
@@ -157,6 +162,17 @@ RULES = {
            "object graph, and from the connection manager's protections (configuration such as the direct-peer set and the blacklist "
            "exempt). Non-trivial: an RPC after the outbound close, streams closed in another order than opened, or a validation that may "
            "outlive the connection. Distinct = case JSON.",
+    "C01": "(NET) 2-10 real nodes on full libp2p hosts over simnet with generated per-link latencies (1-50 ms); routers all-gossipsub, "
+           "all-floodsub, all-randomsub or mixed; gossipsub parameters: defaults, (D 2, Dlo 1, Dhi 2) or (D 4, Dlo 2, Dhi 5), flood "
+           "publishing on or off; roles per node: 1 or 2 subscriptions, relay only, relay + subscription, none (outside publisher); "
+           "overlay random / sparse / line / star, then 0-2 rounds of churn (subscribe, cancel, re-subscribe inside the unsubscribe "
+           "back-off, relay, relay-cancel, connect, disconnect, waits) each repaired by construction: the graph induced on interested "
+           "nodes stays connected, outsiders stay attached, degree <= 6 (= Dlazy = RandomSubD, the bound under which every random "
+           "selection of the routers is exhaustive). Each round: 80 virtual seconds of settling, precondition check (hosts connected "
+           "as scripted, ListPeers = interested neighbours, else inconclusive), 1-3 publishers with bursts of 1-2 messages (small, or "
+           "1.5 KB to engage IDONTWANT), N+4 virtual seconds, then every subscription of every node is drained: each message of the "
+           "round exactly once, nothing else. Non-trivial: a subscriber two or more hops from a publisher, or a churn round. "
+           "Distinct = case JSON.",
     "C05": "(NET) 2-4 real nodes (gossipsub / floodsub / randomsub mixes, outbound queue size 1, 2 or 32) plus a skeleton observer on "
            "full libp2p hosts over simnet with generated link latencies; histories of up to 24 operations - Subscribe, "
            "Subscription.Cancel, Relay, relay-cancel (also twice), Topic.Close, fanout-only joins, connect, whole-peer disconnect, reset "
@@ -323,6 +339,9 @@ RULES = {
 ASSUMPTIONS = {
     "C12": ["framing (oversized, truncated, zero-length frames on a real stream) is exercised by the network-level part, not here",
             "native fuzzing cannot be pinned to a seed; the saved input is the reproducible unit"],
+    "C01": ["degree bound: at most 6 neighbours per node, i.e. non-mesh topic peers <= Dlazy and randomsub peers <= RandomSubD whatever the mesh looks like; the statement's bound D+Dlazy presumes a full mesh, which neighbours that prune a node can deny it, so the check stays inside the part of the domain where delivery does not depend on a random draw",
+            "a round whose announcements have not converged after 80 s (ListPeers differs from the model) is inconclusive: that is C05's property and the antecedent of this one",
+            "bursts stay far below the subscription buffer (32) and the validation queue"],
     "C05": ["connected(i,j) is what both libp2p hosts report; a case whose connection state differs from the script at a quiet point is inconclusive",
             "stream resets are limited to 3 per directed pair: the dead-peer back-off gives up after MaxBackoffAttempts = 4 respawns in 10 minutes by design",
             "the model of interest is: a live relay reference, or a live subscription on a topic that was not joined fanout-only"],
@@ -375,6 +394,14 @@ META = {
                 "retention and state created after the disconnect.",
         "note": "Direct-drive bypasses comm.go; the reflection walk follows only this module's types. One open known finding (gater entry created by a late validation verdict) is excused by its own key.",
         "technique": "stateful property-based testing (rapid) with absence oracle incl. reflection walk of the object graph",
+    },
+    "C01": {
+        "text": "Property-based testing over topologies x router mixes x roles x parameter sets x churn histories on a simulated network "
+                "of real nodes; generator repairs every round by construction (connected overlay, degree bound), the oracle is the "
+                "exact multiset every subscription must receive. Finds a router skipping a class of peers, lazy repair (IHAVE / "
+                "IWANT) not working, relay-only or outside publishers not served, double or missing local delivery.",
+        "note": "The precondition (announcements converged) is checked, not assumed; cases where it fails are inconclusive and more than half of them make the run exit 2.",
+        "technique": "property-based testing (rapid) on a simulated libp2p network with constructive topology / churn generation and exact delivery oracle",
     },
     "C05": {
         "text": "Stateful property-based testing against a reference model of interest (reference counts over subscriptions and relays, "
